@@ -53,6 +53,7 @@ type FuncContract struct {
 	Inline   bool
 	Trusted  bool // contract assumed, body not verified (listed as assumption)
 	NoSafety bool
+	MayPanic bool
 	PanicFree bool
 	Budget   int // solver seconds per obligation (0 = tier default)
 	FrameOnly bool // only frame/initialisation obligations (no SMT obligations are generated)
@@ -106,7 +107,7 @@ type Contracts struct {
 	File    string
 }
 
-var keywordRe = regexp.MustCompile(`^(spec|axiom|lemma|func|props|tier|arith|pure|inline|trusted|nosafety|requires|ensures|expect|panics|modifies|loop|ghost|assert|replaces|initfields|frameonly|budget|panicfree|assumes)\b`)
+var keywordRe = regexp.MustCompile(`^(spec|axiom|lemma|func|props|tier|arith|pure|inline|trusted|nosafety|requires|ensures|expect|panics|modifies|loop|ghost|assert|replaces|initfields|frameonly|budget|panicfree|assumes|maypanic)\b`)
 var labelRe = regexp.MustCompile(`^\[([A-Za-z0-9_.\-]+)\]\s*`)
 
 func (c *Contracts) newClause(kind, text string, line int) *Clause {
@@ -233,6 +234,10 @@ func ParseContracts(path string) (*Contracts, error) {
 				cur.NoSafety = true
 			case "frameonly":
 				cur.FrameOnly = true
+			case "maypanic":
+				// the function may propagate a documented panic of a callee whose condition cannot be
+				// expressed over this function's parameters (e.g. a value set by option callbacks)
+				cur.MayPanic = true
 			case "panicfree":
 				// only panic-relevant safety obligations: integer arithmetic wraps as in Go, float->int
 				// conversion is implementation-defined but never panics
